@@ -43,15 +43,15 @@ def token(draw):
         if n == 0:
             return ('op', '0', 0x00)
         return ('int', n)
-    b = draw(st.one_of(st.binary(min_size=1, max_size=4), st.sampled_from([b'\x01', b'\x05', b'\x10', b'\x81', b'\x00', b'\x80', b'\x11', b'\x00\x00', bytes(20), bytes(75), bytes(76)])))
+    b = draw(st.one_of(st.binary(min_size=1, max_size=4), st.sampled_from([b'\x01', b'\x05', b'\x10', b'\x10', b'\x81', b'\x00', b'\x80', b'\x11', b'\x11', b'\x12', b'\x0f', b'\x82', b'\x00\x00', bytes(20), bytes(75), bytes(76)])))
     text = b.hex()
+    if draw(st.integers(0, 3)) == 0:
+        return ('hex', b, '0x')         # the spelling the tool's own ambiguity warning recommends (also for digit-only texts: 0x11 is the byte 0x11, 11 the number)
     try:
         if str(int(text)) == text and int(text) != 0:
             return ('int', int(text))
     except ValueError:
         pass
-    if draw(st.integers(0, 3)) == 0:
-        return ('hex', b, '0x')         # the spelling the tool's own ambiguity warning recommends
     if ('OP_' + text) in A.BY_NAME:
         return ('op', text, A.BY_NAME['OP_' + text])
     return ('hex', b, '')
